@@ -389,6 +389,24 @@ fn check_message(st: &mut St, us: &[U], idx: &[usize]) {
         return; // a crash is C05's subject
     }
     let (ch, tail, nerr) = chunks();
+    // the shipped heapless writer (which can roll back) must hold exactly the bytes the
+    // pass-through writer received
+    {
+        let mut r2 = Resp;
+        let mut hw: heapless::Vec<u8, 1024> = heapless::Vec::new();
+        let o2 = run_on(&mut r2, &msg, &mut hw, Pattern::NONE);
+        st.formats += 1;
+        let passthrough: Vec<u8> = ch.iter().flatten().copied().chain(tail.iter().copied()).collect();
+        if o2.end == End::Returned && hw[..] != passthrough[..] {
+            let f = vec![("kind", "heapless-writer-holds-other-bytes-than-the-pass-through-writer".to_string()), ("units", idx.len().to_string())];
+            st.groups.add("run-responses", &f, (msg.len(), &msg), || {
+                (
+                    json!({"part": "run", "message": hex(&msg), "units": idx}),
+                    format!("run(\"{}\"): heapless::Vec<u8,1024> holds \"{}\", the pass-through writer received \"{}\"", show(&msg), show(&hw), show(&passthrough)),
+                )
+            });
+        }
+    }
     // admissible executions: after each faulty unit either all or none of the later units run
     let mut ok = false;
     let mut why = String::new();
